@@ -618,8 +618,6 @@ def _monitor(case: dict, trace: list) -> list[Violation]:
     for k, (op, s) in enumerate(zip(case['ops'], trace)):
         b = s['before']
         subs = _flat_ops(op)
-        statuses = (s['status'].split(':')[1].split(',') if s['status'].startswith(('burst', 'gate'))
-                    else [s['status']])
         # --- one parent, not a child
         if s['parent'] is not None and s['parent_name'] in s['children_names']:
             add('C13-parent-is-child', f'parent {s["parent_name"]} (connection {s["parent"]}) is among the children '
@@ -1458,8 +1456,14 @@ class C13(Property):
                     res.count('state:has-children')
                 if s['parent'] is not None and s['children']:
                     res.count('state:parent+children')
-                if s['status'] in ('no-conn', 'no-server', 'already'):
+                if s['status'] in ('no-conn', 'no-server', 'already', 'busy', 'no-gate'):
                     res.count('status:' + s['status'])
+                if 'server' in s.get('gates', []):
+                    res.count('state:server-socket-held')
+                    if s['status'] == 'ok' and s['probe']:
+                        res.count('event:handled-while-server-send-suspended')
+                if any(g != 'server' for g in s.get('gates', [])):
+                    res.count('state:child-socket-held')
             if model is not None and model[i] is not None:
                 res.traces_validated += 1
                 if model[i] != r['lines']:
